@@ -17,14 +17,6 @@ Fixpoint chunks (fuel : nat) (d : bytes) : list bytes :=
 Definition pieces (d : bytes) : list bytes := chunks (S (Z.to_nat (lenZ d / FMAX))) d.
 Definition frame_of (p : bytes) : bytes := hdr (lenZ p) ++ p.
 
-(* the piece of [plen] bytes at flat offset [off] lies inside one caller buffer, and [off] is not the
-   first byte of that buffer (it may be its one-past-the-end position only if plen = 0) *)
-Definition piece_inside (bufs : list bytes) (off plen : Z) : Prop :=
-  exists pre b post, bufs = pre ++ b :: post /\ sumlen pre < off /\ off + plen <= sumlen pre + lenZ b.
-Definition split_safe (bufs : list bytes) : Prop :=
-  forall k, 1 <= k -> k * FMAX < sumlen bufs ->
-    piece_inside bufs (k * FMAX) (Z.min FMAX (sumlen bufs - k * FMAX)).
-
 (* ------------------------------------------------------------------------------------------------ *)
 (** * Numbers *)
 
@@ -93,20 +85,21 @@ Qed.
 (** * copy_loop *)
 
 (* from the start of a buffer: never a Fault, the slices are the next [plen] bytes *)
-Lemma copy_loop_zero : forall bufs plen, 0 <= plen <= 65535 ->
+Lemma copy_loop_zero : forall bufs plen, sumlen bufs < W64 -> 0 <= plen <= 65535 ->
   exists sl, copy_loop bufs 0 plen = Some (sl, Z.min plen (sumlen bufs)) /\
              concat sl = takeZ plen (concat bufs) /\ length sl = length bufs.
 Proof.
-  induction bufs as [|b t IH]; intros plen Hp.
+  induction bufs as [|b t IH]; intros plen Hw Hp.
   - exists []. cbn [copy_loop sumlen concat]. rewrite Z.min_r by lia. rewrite takeZ_nil.
     repeat split; reflexivity.
-  - cbn [copy_loop sumlen concat].
+  - cbn [copy_loop sumlen concat]. cbn [sumlen] in Hw.
     pose proof (lenZ_nonneg b) as Hb. pose proof (sumlen_nonneg t) as Ht.
+    rewrite Z.sub_0_r. rewrite w64_id by lia.
     set (sz := Z.min (lenZ b) plen).
     assert (Hsz : 0 <= sz <= lenZ b /\ sz <= plen) by (unfold sz; lia).
     rewrite mreadn_ok by lia. rewrite dropZ_nonpos by lia.
     rewrite w16_id by lia.
-    destruct (IH (plen - sz)) as [sl [Hc [Hs Hl]]]; [lia|].
+    destruct (IH (plen - sz)) as [sl [Hc [Hs Hl]]]; [lia|lia|].
     rewrite Hc. exists (takeZ sz b :: sl). split; [|split].
     + f_equal. f_equal. unfold sz. lia.
     + cbn [concat]. rewrite Hs. unfold sz. destruct (Z.le_gt_cases (lenZ b) plen) as [H1|H1].
@@ -116,26 +109,30 @@ Proof.
     + cbn [length]. rewrite Hl. reflexivity.
 Qed.
 
-(* from inside a buffer (offset_in_buffer > 0): fine when the piece ends inside that buffer ... *)
-Lemma copy_loop_inside (b : bytes) (post : list bytes) oib plen : 0 < oib -> 0 <= plen <= 65535 -> oib + plen <= lenZ b ->
-  exists sl, copy_loop (b :: post) oib plen = Some (sl, plen) /\ concat sl = takeZ plen (dropZ oib b) /\
-             length sl = S (length post).
+(* from any position inside (or at the very end of) the first buffer: never a Fault either -- only the
+   [lenZ b - oib] bytes that are left of that buffer are asked for *)
+Lemma copy_loop_from (b : bytes) (post : list bytes) oib plen :
+  sumlen (b :: post) < W64 -> 0 <= oib <= lenZ b -> 0 <= plen <= 65535 ->
+  exists sl, copy_loop (b :: post) oib plen = Some (sl, Z.min plen (sumlen (b :: post) - oib)) /\
+             concat sl = takeZ plen (dropZ oib (concat (b :: post))) /\ length sl = S (length post).
 Proof.
-  intros Ho Hp Hin. cbn [copy_loop].
-  rewrite Z.min_r by lia. rewrite mreadn_ok by lia.
-  replace (plen - plen) with 0 by lia. rewrite w16_id by lia.
-  destruct (copy_loop_zero post 0) as [sl [Hc [Hs Hl]]]; [lia|].
-  rewrite Hc. exists (takeZ plen (dropZ oib b) :: sl). split; [|split].
-  - f_equal. f_equal. pose proof (sumlen_nonneg post). lia.
-  - cbn [concat]. rewrite Hs. rewrite (takeZ_nonpos 0) by lia. apply app_nil_r.
+  intros Hw Ho Hp. cbn [copy_loop sumlen concat]. cbn [sumlen] in Hw.
+  pose proof (lenZ_nonneg b) as Hb. pose proof (sumlen_nonneg post) as Ht.
+  rewrite w64_id by lia.
+  set (sz := Z.min (lenZ b - oib) plen).
+  assert (Hsz : 0 <= sz <= lenZ b - oib /\ sz <= plen) by (unfold sz; lia).
+  rewrite mreadn_ok by lia. rewrite w16_id by lia.
+  destruct (copy_loop_zero post (plen - sz)) as [sl [Hc [Hs Hl]]]; [lia|lia|].
+  rewrite Hc. exists (takeZ sz (dropZ oib b) :: sl). split; [|split].
+  - f_equal. f_equal. unfold sz. lia.
+  - cbn [concat]. rewrite Hs. rewrite dropZ_app_l by lia.
+    assert (Hld : lenZ (dropZ oib b) = lenZ b - oib) by (rewrite lenZ_dropZ; lia).
+    unfold sz. destruct (Z.le_gt_cases (lenZ b - oib) plen) as [H1|H1].
+    + rewrite Z.min_l by lia. rewrite (takeZ_all (lenZ b - oib)) by lia.
+      rewrite takeZ_app_r by lia. rewrite Hld. reflexivity.
+    + rewrite Z.min_r by lia. rewrite takeZ_app_l by lia. replace (plen - plen) with 0 by lia.
+      rewrite (takeZ_nonpos 0) by lia. rewrite app_nil_r. reflexivity.
   - cbn [length]. rewrite Hl. reflexivity.
-Qed.
-
-(* ... and a read past the end of the buffer otherwise *)
-Lemma copy_loop_outside (b : bytes) (post : list bytes) oib plen : 0 < oib -> 0 <= plen -> lenZ b < oib + plen ->
-  copy_loop (b :: post) oib plen = None.
-Proof.
-  intros Ho Hp Hout. cbn [copy_loop]. rewrite mreadn_fail; [reflexivity|]. lia.
 Qed.
 
 (* ------------------------------------------------------------------------------------------------ *)
@@ -224,51 +221,35 @@ Proof.
 Qed.
 
 Lemma frame_step_ok fuel' bufs mlen offset resp :
-  sumlen bufs < W64 -> 0 < mlen -> offset + mlen = sumlen bufs ->
-  (offset = 0 \/ piece_inside bufs offset (Z.min FMAX mlen)) ->
+  sumlen bufs < W64 -> 0 < mlen -> 0 <= offset -> offset + mlen = sumlen bufs ->
   exists sl, concat sl = takeZ (Z.min FMAX mlen) (dropZ offset (concat bufs)) /\
     frame_loop (S fuel') bufs mlen offset resp = step_res fuel' bufs mlen offset resp (Z.min FMAX mlen) sl.
 Proof.
-  intros Hw Hm Hsum Hcase. set (plen := Z.min FMAX mlen) in *.
+  intros Hw Hm Ho Hsum. set (plen := Z.min FMAX mlen) in *.
   assert (Hp : 0 < plen <= 65535 /\ plen <= mlen) by (unfold plen; rewrite FMAX_val; lia).
   pose proof W64_big as HW.
-  destruct Hcase as [H0 | [pre [b [post [E [H1 H2]]]]]].
+  destruct (Z.eq_dec offset 0) as [H0|NZ].
   - subst offset. destruct bufs as [|b t]; [cbn [sumlen] in Hsum; lia|].
-    destruct (copy_loop_zero (b :: t) plen) as [sl [Hc [Hs _]]]; [lia|].
+    destruct (copy_loop_zero (b :: t) plen) as [sl [Hc [Hs _]]]; [lia|lia|].
     exists sl. split.
     + rewrite dropZ_nonpos by lia. exact Hs.
     + rewrite (frame_loop_unfold fuel' (b :: t) mlen 0 resp 0 0 (b :: t) Hm (find_buf_zero b t)).
       change (Z.min FMAX mlen) with plen. rewrite Hc. rewrite Z.min_l by lia. unfold step_res.
       destruct (next_resp resp) as [r resp']. rewrite w64_id by lia. reflexivity.
-  - pose proof (sumlen_nonneg pre) as Hpre. pose proof (lenZ_nonneg b) as Hb.
+  - destruct (split_at bufs offset) as [pre [b [post [E [H1 H2]]]]]; [lia|].
+    pose proof (sumlen_nonneg pre) as Hpre. pose proof (lenZ_nonneg b) as Hb.
     assert (Hlp : lenZ (concat pre) = sumlen pre) by (symmetry; apply sumlen_concat).
-    destruct (copy_loop_inside b post (offset - 0 - sumlen pre) plen) as [sl [Hc [Hs _]]]; [lia|lia|lia|].
+    assert (Hsp : sumlen bufs = sumlen pre + sumlen (b :: post)) by (rewrite E; apply sumlen_app).
+    destruct (copy_loop_from b post (offset - 0 - sumlen pre) plen) as [sl [Hc [Hs _]]]; [lia|lia|lia|].
     exists sl. split.
-    + rewrite Hs. rewrite E. rewrite concat_app. cbn [concat].
-      rewrite dropZ_app_r by lia. rewrite Hlp.
-      rewrite dropZ_app_l by lia.
-      rewrite takeZ_app_l by (rewrite lenZ_dropZ; lia).
+    + rewrite Hs. rewrite E. rewrite concat_app.
+      rewrite (dropZ_app_r offset) by lia. rewrite Hlp.
       replace (offset - 0 - sumlen pre) with (offset - sumlen pre) by lia. reflexivity.
     + rewrite (frame_loop_unfold fuel' bufs mlen offset resp (offset - 0 - sumlen pre) offset (b :: post) Hm).
       2:{ rewrite E. apply find_buf_spec; lia. }
-      change (Z.min FMAX mlen) with plen. rewrite Hc. unfold step_res. destruct (next_resp resp) as [r resp'].
+      change (Z.min FMAX mlen) with plen. rewrite Hc. rewrite Z.min_l by lia.
+      unfold step_res. destruct (next_resp resp) as [r resp'].
       rewrite w64_id by lia. reflexivity.
-Qed.
-
-Lemma frame_step_inv fuel' bufs mlen offset resp x :
-  sumlen bufs < W64 -> 0 < mlen -> 0 < offset -> offset + mlen = sumlen bufs ->
-  frame_loop (S fuel') bufs mlen offset resp = Some x -> piece_inside bufs offset (Z.min FMAX mlen).
-Proof.
-  intros Hw Hm Ho Hsum Hx. set (plen := Z.min FMAX mlen) in *.
-  assert (Hp : 0 < plen <= 65535 /\ plen <= mlen) by (unfold plen; rewrite FMAX_val; lia).
-  destruct (split_at bufs offset) as [pre [b [post [E [H1 H2]]]]]; [lia|].
-  pose proof (sumlen_nonneg pre) as Hpre.
-  destruct (Z.le_gt_cases (offset + plen) (sumlen pre + lenZ b)) as [A|A].
-  - exists pre, b, post. repeat split; assumption.
-  - exfalso.
-    rewrite (frame_loop_unfold fuel' bufs mlen offset resp (offset - 0 - sumlen pre) offset (b :: post) Hm) in Hx.
-    2:{ rewrite E. apply find_buf_spec; lia. }
-    change (Z.min FMAX mlen) with plen in Hx. rewrite copy_loop_outside in Hx by lia. discriminate Hx.
 Qed.
 
 (* ------------------------------------------------------------------------------------------------ *)
@@ -324,11 +305,9 @@ Lemma lenZ_drop_concat bufs offset : 0 <= offset <= sumlen bufs ->
   lenZ (dropZ offset (concat bufs)) = sumlen bufs - offset.
 Proof. intros H. rewrite lenZ_dropZ, <- sumlen_concat. lia. Qed.
 
-Lemma frame_loop_ok : forall fuel bufs mlen offset k,
-  sumlen bufs < W64 -> 0 <= k -> offset = k * FMAX -> offset + mlen = sumlen bufs -> 0 < mlen ->
+Lemma frame_loop_ok : forall fuel bufs mlen offset,
+  sumlen bufs < W64 -> 0 <= offset -> offset + mlen = sumlen bufs -> 0 < mlen ->
   mlen < Z.of_nat fuel * FMAX ->
-  (forall j, 1 <= j -> k <= j -> j * FMAX < sumlen bufs ->
-     piece_inside bufs (j * FMAX) (Z.min FMAX (sumlen bufs - j * FMAX))) ->
   exists fs, frame_loop fuel bufs mlen offset [] = Some (fs, [], true, false) /\
     map frame_bytes fs = map frame_of (chunks fuel (dropZ offset (concat bufs))) /\
     Forall (fun f => f_res f = SOk) fs /\
@@ -336,12 +315,9 @@ Lemma frame_loop_ok : forall fuel bufs mlen offset k,
                      Forall (fun f => f_reliable f = true) rest) /\
     Forall (fun f => shape_ok (f_vec f)) fs.
 Proof.
-  induction fuel as [|fuel' IH]; intros bufs mlen offset k Hw Hk Hoff Hsum Hm Hfuel Hsafe.
+  induction fuel as [|fuel' IH]; intros bufs mlen offset Hw Hoff Hsum Hm Hfuel.
   - fmx.
-  - assert (Hcase : offset = 0 \/ piece_inside bufs offset (Z.min FMAX mlen)).
-    { destruct (Z.eq_dec offset 0) as [Z0|NZ]; [left; exact Z0|right].
-      replace mlen with (sumlen bufs - offset) by lia. rewrite Hoff. apply Hsafe; fmx. }
-    destruct (frame_step_ok fuel' bufs mlen offset [] Hw Hm Hsum Hcase) as [sl [Hsl Hstep]].
+  - destruct (frame_step_ok fuel' bufs mlen offset [] Hw Hm Hoff Hsum) as [sl [Hsl Hstep]].
     rewrite Hstep. unfold step_res. cbn [next_resp].
     assert (Hlen : lenZ (dropZ offset (concat bufs)) = mlen) by (rewrite lenZ_drop_concat; fmx).
     set (dd := dropZ offset (concat bufs)) in *.
@@ -352,9 +328,8 @@ Proof.
     + (* more frames follow *)
       assert (Hpl : Z.min FMAX mlen = FMAX) by lia. rewrite Hpl in *.
       destruct (Z.eqb_spec (mlen - FMAX) 0) as [A|_]; [fmx|].
-      destruct (IH bufs (mlen - FMAX) (offset + FMAX) (k + 1))
+      destruct (IH bufs (mlen - FMAX) (offset + FMAX))
         as [fs [Hfl [Hby [Hres [[f0 [rest [Efs [Hr0 Hrest]]]] Hshape]]]]]; try fmx.
-      { intros j J1 J2 J3. apply Hsafe; lia. }
       rewrite Hfl.
       eexists. split; [reflexivity|]. split; [|split; [|split]].
       * cbn [map]. f_equal.
@@ -381,31 +356,6 @@ Proof.
         split; [reflexivity|]. split; [rewrite Hsl; exact Hdd | lia].
 Qed.
 
-Lemma frame_loop_inv : forall fuel bufs mlen offset k x,
-  sumlen bufs < W64 -> 0 <= k -> offset = k * FMAX -> offset + mlen = sumlen bufs -> 0 < mlen ->
-  mlen < Z.of_nat fuel * FMAX ->
-  frame_loop fuel bufs mlen offset [] = Some x ->
-  forall j, 1 <= j -> k <= j -> j * FMAX < sumlen bufs ->
-     piece_inside bufs (j * FMAX) (Z.min FMAX (sumlen bufs - j * FMAX)).
-Proof.
-  induction fuel as [|fuel' IH]; intros bufs mlen offset k x Hw Hk Hoff Hsum Hm Hfuel Hx j J1 J2 J3.
-  - fmx.
-  - assert (Hcase : offset = 0 \/ piece_inside bufs offset (Z.min FMAX mlen)).
-    { destruct (Z.eq_dec offset 0) as [Z0|NZ]; [left; exact Z0|right].
-      apply (frame_step_inv fuel' bufs mlen offset [] x); try assumption. fmx. }
-    destruct (frame_step_ok fuel' bufs mlen offset [] Hw Hm Hsum Hcase) as [sl [_ Hstep]].
-    rewrite Hstep in Hx. unfold step_res in Hx. cbn [next_resp] in Hx.
-    destruct (Z.eq_dec j k) as [Ejk|Njk].
-    + subst j. destruct Hcase as [Z0|Hpi]; [fmx|].
-      rewrite <- Hoff. replace (sumlen bufs - offset) with mlen by lia. exact Hpi.
-    + destruct (Z.eqb_spec (mlen - Z.min FMAX mlen) 0) as [Last|More].
-      * exfalso. fmx.
-      * destruct (frame_loop fuel' bufs (mlen - Z.min FMAX mlen) (offset + Z.min FMAX mlen) [])
-          as [[[[fs rs] c] e]|] eqn:Efl; [|discriminate Hx].
-        assert (Hpl : Z.min FMAX mlen = FMAX) by lia. rewrite Hpl in Efl.
-        apply (IH bufs (mlen - FMAX) (offset + FMAX) (k + 1) (fs, rs, c, e)); try assumption; try fmx.
-Qed.
-
 (* ------------------------------------------------------------------------------------------------ *)
 (** * One message *)
 
@@ -413,7 +363,7 @@ Lemma send_message_empty bufs resp : sumlen bufs <= 0 ->
   send_message bufs resp = Some ([], resp, false, false).
 Proof. intros H. unfold send_message. apply frame_loop_done. exact H. Qed.
 
-Lemma send_message_safe bufs : sumlen bufs < W64 -> 0 < sumlen bufs -> split_safe bufs ->
+Lemma send_message_ok bufs : sumlen bufs < W64 -> 0 < sumlen bufs ->
   exists fs, send_message bufs [] = Some (fs, [], true, false) /\
     map frame_bytes fs = map frame_of (pieces (concat bufs)) /\
     Forall (fun f => f_res f = SOk) fs /\
@@ -421,20 +371,10 @@ Lemma send_message_safe bufs : sumlen bufs < W64 -> 0 < sumlen bufs -> split_saf
                      Forall (fun f => f_reliable f = true) rest) /\
     Forall (fun f => shape_ok (f_vec f)) fs.
 Proof.
-  intros Hw Hpos Hsafe. unfold send_message, pieces. rewrite <- sumlen_concat.
-  destruct (frame_loop_ok (S (Z.to_nat (sumlen bufs / FMAX))) bufs (sumlen bufs) 0 0) as [fs H]; try lia.
+  intros Hw Hpos. unfold send_message, pieces. rewrite <- sumlen_concat.
+  destruct (frame_loop_ok (S (Z.to_nat (sumlen bufs / FMAX))) bufs (sumlen bufs) 0) as [fs H]; try lia.
   - apply fuel_ok. lia.
-  - intros j J1 _ J3. apply Hsafe; assumption.
   - rewrite dropZ_nonpos in H by lia. exists fs. exact H.
-Qed.
-
-Lemma send_message_inv bufs x : sumlen bufs < W64 -> send_message bufs [] = Some x -> split_safe bufs.
-Proof.
-  intros Hw Hx k K1 K2. pose proof (sumlen_nonneg bufs) as Hn.
-  assert (Hpos : 0 < sumlen bufs) by fmx.
-  unfold send_message in Hx.
-  apply (frame_loop_inv (S (Z.to_nat (sumlen bufs / FMAX))) bufs (sumlen bufs) 0 0 x Hw); try lia; try assumption.
-  apply fuel_ok. lia.
 Qed.
 
 Lemma send_frames_of_message bufs fs rs c e :
@@ -447,72 +387,34 @@ Proof.
   induction 1 as [|x t Hx Ht IH]; cbn [map]; constructor; assumption.
 Qed.
 
-(** S1: whenever the model does not fault, the vectors handed to the socket are exactly the
-    RFC 4571 frames of the message *)
+(** S1: for every size and every scatter layout the framing loop reads only inside the caller's buffers, and the
+    vectors handed to the socket are exactly the RFC 4571 frames of the message *)
+Theorem send_frames_total bufs : sumlen bufs < W64 ->
+  exists vs, send_frames bufs = Some vs /\ map (@concat Z) vs = map frame_of (pieces (concat bufs)) /\
+    Forall (fun v => exists p sl, v = hdr (lenZ p) :: sl /\ concat sl = p /\ 0 < lenZ p <= FMAX) vs.
+Proof.
+  intros Hw. destruct (Z.le_gt_cases (sumlen bufs) 0) as [Z0|Pos].
+  - exists []. split; [|split].
+    + apply (send_frames_of_message bufs [] [] false false). apply send_message_empty. exact Z0.
+    + rewrite pieces_nil by (rewrite <- sumlen_concat; exact Z0). reflexivity.
+    + constructor.
+  - destruct (send_message_ok bufs Hw Pos) as [fs [E [Hby [_ [_ Hsh]]]]].
+    exists (map f_vec fs). split; [exact (send_frames_of_message _ _ _ _ _ E)|]. split.
+    + rewrite map_map. exact Hby.
+    + apply Forall_map_intro. exact Hsh.
+Qed.
+
 Theorem send_frames_correct bufs vs : sumlen bufs < W64 ->
   send_frames bufs = Some vs -> map (@concat Z) vs = map frame_of (pieces (concat bufs)).
 Proof.
-  intros Hw H. unfold send_frames in H.
-  destruct (send_message bufs []) as [[[[fs rs] c] e]|] eqn:E; [|discriminate H].
-  injection H as H. subst vs. rewrite map_map.
-  destruct (Z.le_gt_cases (sumlen bufs) 0) as [Z0|Pos].
-  - rewrite send_message_empty in E by exact Z0. injection E as E1 E2 E3 E4. subst fs.
-    rewrite pieces_nil by (rewrite <- sumlen_concat; exact Z0). reflexivity.
-  - pose proof (send_message_inv bufs _ Hw E) as Hsafe.
-    destruct (send_message_safe bufs Hw Pos Hsafe) as [fs' [E' [Hby _]]].
-    rewrite E' in E. injection E as E1 E2 E3 E4. subst fs'. exact Hby.
+  intros Hw H. destruct (send_frames_total bufs Hw) as [vs' [E [Hc _]]]. rewrite E in H. injection H as <-. exact Hc.
 Qed.
 
 (** every vector is: 2-byte header, then one slice per remaining caller buffer *)
 Theorem send_frames_shape bufs vs : sumlen bufs < W64 -> send_frames bufs = Some vs ->
   Forall (fun v => exists p sl, v = hdr (lenZ p) :: sl /\ concat sl = p /\ 0 < lenZ p <= FMAX) vs.
 Proof.
-  intros Hw H. unfold send_frames in H.
-  destruct (send_message bufs []) as [[[[fs rs] c] e]|] eqn:E; [|discriminate H].
-  injection H as H. subst vs.
-  destruct (Z.le_gt_cases (sumlen bufs) 0) as [Z0|Pos].
-  - rewrite send_message_empty in E by exact Z0. injection E as E1 E2 E3 E4. subst fs. constructor.
-  - pose proof (send_message_inv bufs _ Hw E) as Hsafe.
-    destruct (send_message_safe bufs Hw Pos Hsafe) as [fs' [E' [_ [_ [_ Hsh]]]]].
-    rewrite E' in E. injection E as E1 E2 E3 E4. subst fs'.
-    apply Forall_map_intro. exact Hsh.
-Qed.
-
-(** S2: exact condition for no Fault *)
-Theorem send_frames_safe_iff bufs : sumlen bufs < W64 ->
-  ((exists vs, send_frames bufs = Some vs) <-> split_safe bufs).
-Proof.
-  intros Hw. split.
-  - intros [vs H]. unfold send_frames in H.
-    destruct (send_message bufs []) as [x|] eqn:E; [|discriminate H].
-    exact (send_message_inv bufs x Hw E).
-  - intros Hsafe. destruct (Z.le_gt_cases (sumlen bufs) 0) as [Z0|Pos].
-    + eexists. apply (send_frames_of_message bufs [] [] false false). apply send_message_empty. exact Z0.
-    + destruct (send_message_safe bufs Hw Pos Hsafe) as [fs [E _]].
-      eexists. apply (send_frames_of_message _ _ _ _ _ E).
-Qed.
-
-Lemma split_safe_small bufs : sumlen bufs <= FMAX -> split_safe bufs.
-Proof. intros H k K1 K2. exfalso. fmx. Qed.
-
-Corollary send_frames_small bufs : sumlen bufs <= FMAX -> exists vs, send_frames bufs = Some vs.
-Proof.
-  intros H. apply send_frames_safe_iff.
-  - pose proof W64_big. fmx.
-  - apply split_safe_small. exact H.
-Qed.
-
-Lemma split_safe_single (b : bytes) : split_safe [b].
-Proof.
-  intros k K1 K2. cbn [sumlen] in *. exists [], b, []. cbn [app sumlen].
-  split; [reflexivity|]. split; fmx.
-Qed.
-
-Corollary send_frames_single (b : bytes) : lenZ b < W64 -> exists vs, send_frames [b] = Some vs.
-Proof.
-  intros H. apply send_frames_safe_iff.
-  - cbn [sumlen]. lia.
-  - apply split_safe_single.
+  intros Hw H. destruct (send_frames_total bufs Hw) as [vs' [E [_ Hs]]]. rewrite E in H. injection H as <-. exact Hs.
 Qed.
 
 (** the first frame is sent unreliably, all later ones reliably; with all answers SOk n_sent is incremented *)
@@ -522,8 +424,7 @@ Theorem send_message_flags bufs fs rs c e : sumlen bufs < W64 -> send_message bu
   Forall (fun f => f_res f = SOk) fs.
 Proof.
   intros Hw E Pos.
-  pose proof (send_message_inv bufs _ Hw E) as Hsafe.
-  destruct (send_message_safe bufs Hw Pos Hsafe) as [fs' [E' [_ [Hres [Hrel _]]]]].
+  destruct (send_message_ok bufs Hw Pos) as [fs' [E' [_ [Hres [Hrel _]]]]].
   rewrite E' in E. injection E as E1 E2 E3 E4. subst fs' rs c e.
   split; [reflexivity|]. split; [reflexivity|]. split; [reflexivity|]. split; [exact Hrel|exact Hres].
 Qed.
@@ -534,7 +435,7 @@ Theorem send_message_blocked bufs resp : sumlen bufs < W64 -> 0 < sumlen bufs ->
 Proof.
   intros Hw Pos. unfold send_message.
   destruct (frame_step_ok (Z.to_nat (sumlen bufs / FMAX)) bufs (sumlen bufs) 0 (SBlock :: resp) Hw Pos)
-    as [sl [_ Hstep]]; [lia | left; reflexivity |].
+    as [sl [_ Hstep]]; [lia | lia |].
   rewrite Hstep. unfold step_res. cbn [next_resp].
   eexists. split; [reflexivity|]. split; reflexivity.
 Qed.
@@ -545,7 +446,7 @@ Theorem send_message_error bufs resp : sumlen bufs < W64 -> 0 < sumlen bufs ->
 Proof.
   intros Hw Pos. unfold send_message.
   destruct (frame_step_ok (Z.to_nat (sumlen bufs / FMAX)) bufs (sumlen bufs) 0 (SErr :: resp) Hw Pos)
-    as [sl [_ Hstep]]; [lia | left; reflexivity |].
+    as [sl [_ Hstep]]; [lia | lia |].
   rewrite Hstep. unfold step_res. cbn [next_resp].
   eexists. split; [reflexivity|]. split; reflexivity.
 Qed.
@@ -561,7 +462,7 @@ Proof.
 Qed.
 
 Lemma send_loop_all : forall bufss n,
-  Forall (fun b => sumlen b < W64 /\ 0 < sumlen b /\ split_safe b) bufss ->
+  Forall (fun b => sumlen b < W64 /\ 0 < sumlen b) bufss ->
   exists fss, send_loop bufss [] n = Some (fss, n + Z.of_nat (length bufss)) /\
     map wire_of fss = map (fun b => concat (map frame_of (pieces (concat b)))) bufss /\
     Forall (fun fs => Forall (fun f => f_res f = SOk) fs) fss.
@@ -571,8 +472,8 @@ Proof.
     + f_equal. f_equal. lia.
     + reflexivity.
     + constructor.
-  - inversion HF as [|m' ms' [Hw [Hpos Hsafe]] HF' Eq]. subst m' ms'.
-    destruct (send_message_safe m Hw Hpos Hsafe) as [fs [E [Hby [Hres _]]]].
+  - inversion HF as [|m' ms' [Hw Hpos] HF' Eq]. subst m' ms'.
+    destruct (send_message_ok m Hw Hpos) as [fs [E [Hby [Hres _]]]].
     destruct (IH (n + 1) HF') as [fss [El [Hwire Hall]]].
     cbn [send_loop]. rewrite E. cbn [andb]. rewrite El.
     exists (fs :: fss). split; [|split].
@@ -582,10 +483,10 @@ Proof.
     + constructor; assumption.
 Qed.
 
-(** several messages in one call, every answer SOk, every message safe and non-empty: all are counted,
+(** several messages in one call, every answer SOk, every message non-empty: all are counted,
     the wire carries their frames in order *)
 Theorem send_api_all bufss :
-  Forall (fun b => sumlen b < W64 /\ 0 < sumlen b /\ split_safe b) bufss -> bufss <> [] ->
+  Forall (fun b => sumlen b < W64 /\ 0 < sumlen b) bufss -> bufss <> [] ->
   exists fss, send_api bufss [] = Some (fss, Z.of_nat (length bufss)) /\
     concat (map wire_of fss) = concat (map (fun b => concat (map frame_of (pieces (concat b)))) bufss).
 Proof.
@@ -600,45 +501,48 @@ Proof.
 Qed.
 
 (* ------------------------------------------------------------------------------------------------ *)
-(** * The defect in general form (two buffers): a first buffer of exactly FMAX bytes followed by a
-    non-empty second one always faults -- the second frame starts at the END of the first buffer *)
-Theorem send_frames_boundary_fault (b1 b2 : bytes) :
-  lenZ b1 = FMAX -> 0 < lenZ b2 -> lenZ b1 + lenZ b2 < W64 -> send_frames [b1; b2] = None.
-Proof.
-  intros L1 L2 Hw.
-  destruct (send_frames [b1; b2]) as [vs|] eqn:E; [exfalso|reflexivity].
-  assert (Hsafe : split_safe [b1; b2]).
-  { apply send_frames_safe_iff; [cbn [sumlen]; lia|]. exists vs. exact E. }
-  destruct (Hsafe 1) as [pre [b [post [E1 [H1 H2]]]]]; [lia | cbn [sumlen]; fmx |].
-  destruct pre as [|x [|y pre]]; cbn [app] in E1.
-  - injection E1 as A B. subst b post. cbn [sumlen] in *. fmx.
-  - injection E1 as A B C. subst x b post. cbn [sumlen] in *. fmx.
-  - injection E1 as A B C. destruct pre as [|z pre]; discriminate C.
-Qed.
+(** * Regression: the copy loop before fix f9b160b
 
-(* ------------------------------------------------------------------------------------------------ *)
-(** * Witnesses, by computation *)
+    It asked for MIN (size, packet_len) bytes at [buffer + offset_in_buffer]: for a message above 0xF800 bytes whose
+    second frame does not end inside the buffer it starts in, that is a read past the end of the caller's buffer
+    (ASan: heap-buffer-overflow READ of 100 bytes for the buffers [63488][100]).  The repaired loop reads nothing from
+    the exhausted buffer and the 100 bytes from the next one. *)
+Fixpoint copy_loop_before_fix (bufs : list bytes) (oib plen : Z) : option (list bytes * Z) :=
+  match bufs with
+  | [] => Some ([], 0)
+  | b :: bs =>
+      let sz := Z.min (lenZ b) plen in
+      match mreadn b oib sz with
+      | None => None
+      | Some s =>
+        match copy_loop_before_fix bs 0 (w16 (plen - sz)) with
+        | None => None
+        | Some (r, tot) => Some (s :: r, sz + tot)
+        end
+      end
+  end.
 
 Local Transparent FMAX W64.
 
-(** the defect: a frame boundary that coincides with a buffer boundary *)
-Theorem send_frames_refuted : exists bufs, sumlen bufs <= 65535 /\ length bufs = 2%nat /\ send_frames bufs = None.
-Proof.
-  exists [repZ 7 (Z.to_nat 63488); repZ 9 (Z.to_nat 100)]. split; [|split].
-  - apply Z.leb_le. vm_compute. reflexivity.
-  - reflexivity.
-  - vm_compute. reflexivity.
-Qed.
+Example copy_loop_regression_boundary :
+  let bufs := [repZ 7 (Z.to_nat 63488); repZ 9 (Z.to_nat 100)] in
+  (let '(oib, cur, rest) := find_buf bufs 63488 0 in (oib, cur, length rest)) = (63488, 63488, 2%nat) /\
+  copy_loop_before_fix bufs 63488 100 = None /\
+  (match copy_loop bufs 63488 100 with Some (sl, tot) => Some (map lenZ sl, tot) | None => None end) = Some ([0; 100], 100).
+Proof. cbv zeta. split; [vm_compute; reflexivity|]. split; vm_compute; reflexivity. Qed.
 
-(** the defect: the split point lies strictly inside the second buffer, the piece runs into the third *)
-Theorem send_frames_refuted_inside : exists bufs, sumlen bufs <= 70000 /\ send_frames bufs = None.
-Proof.
-  exists [repZ 1 (Z.to_nat 63000); repZ 2 (Z.to_nat 1000); repZ 3 (Z.to_nat 5000)]. split.
-  - apply Z.leb_le. vm_compute. reflexivity.
-  - vm_compute. reflexivity.
-Qed.
+(* the layouts that used to fault: split point at a buffer boundary, and strictly inside the second of three buffers *)
+Example send_frames_regression_boundary :
+  (match send_frames [repZ 7 (Z.to_nat 63488); repZ 9 (Z.to_nat 100)] with Some vs => map (map lenZ) vs | None => [] end)
+    = [[2; 63488; 0]; [2; 0; 100]].
+Proof. vm_compute. reflexivity. Qed.
 
-(** non-vacuity: two-frame messages that are safe (and then correct by [send_frames_correct]) *)
+Example send_frames_regression_inside :
+  (match send_frames [repZ 1 (Z.to_nat 63000); repZ 2 (Z.to_nat 1000); repZ 3 (Z.to_nat 5000)] with
+   | Some vs => map (map lenZ) vs | None => [] end) = [[2; 63000; 488; 0]; [2; 512; 5000]].
+Proof. vm_compute. reflexivity. Qed.
+
+(** two-frame messages *)
 Example send_frames_two_frames_ok :
   exists vs, send_frames [repZ 1 (Z.to_nat 10); repZ 2 (Z.to_nat 70000)] = Some vs /\ length vs = 2%nat.
 Proof.
